@@ -93,6 +93,10 @@ impl Prop for C14 {
                 sts.push(St::Print(vec![gen::Item::S("é→".into())], true));
             }
             sts.push(St::Cmd(f, refs));
+            if rng.chance(1, 3) {
+                // something behind the command on its line: an omitted operand is followed by `:`
+                sts.push(St::Print(vec![gen::Item::S("z".into())], false));
+            }
             p.lines.push(Line { label: next_label, sts });
             next_label += 1;
         }
